@@ -50,6 +50,7 @@ type item struct {
 	Scenario int   `json:"s"`
 	Prefix   []int `json:"p"`
 	Deadline int64 `json:"d"` // unix seconds
+	Level    int   `json:"l"` // bound level: executions with exactly this many deviations are checked
 }
 
 type viol struct {
@@ -116,7 +117,7 @@ func exploreItem(scs []Scenario, cfg Config, it item) result {
 	res := result{Scenario: it.Scenario, Classes: map[string]int64{}}
 	deadline := time.Unix(it.Deadline, 0)
 	seen := map[string]bool{}
-	x := &vsched.Explorer{Delay: cfg.Delay, Bound: boundOf(sc, cfg), MaxPoints: cfg.MaxPoints, Body: sc.Body,
+	x := &vsched.Explorer{Delay: cfg.Delay, Bound: it.Level, ExactOnly: true, MaxPoints: cfg.MaxPoints, Body: sc.Body,
 		Stop: func() bool { return time.Now().After(deadline) }}
 	x.Check = func(r *vsched.Result) {
 		res.Steps += int64(len(r.Points))
@@ -263,7 +264,7 @@ func Run(c *vk.Ctx, scs []Scenario, cfg Config) {
 		items                      int
 	}
 	aggs := make([]*agg, len(scs))
-	var items []item
+	roots := make([]rootOut, len(scs))
 	// Root executions (in-process) and first-level split.
 	for si, sc := range scs {
 		aggs[si] = &agg{classes: map[string]int64{}}
@@ -282,104 +283,142 @@ func Run(c *vk.Ctx, scs []Scenario, cfg Config) {
 		if merge.Diverged != "" || merge.Nondet != "" {
 			harnessError(c, merge.Diverged+merge.Nondet)
 		}
-		for _, p := range root.children {
-			items = append(items, item{Scenario: si, Prefix: p, Deadline: deadline.Unix()})
-		}
 		a.items = len(root.children)
+		roots[si] = root
 	}
-	// Workers.
+	// Long-lived single-threaded workers.
 	self := os.Getenv("VERIF_SELF")
 	if self == "" {
 		self, _ = os.Executable()
 	}
-	var mu sync.Mutex
-	next := 0
-	var wg sync.WaitGroup
-	var herr string
-	for w := 0; w < cfg.Workers && w < len(items); w++ {
-		wg.Add(1)
-		go func() {
-			defer wg.Done()
-			cmd := exec.Command(self, os.Args[1:]...)
-			cmd.Env = append(os.Environ(), "VERIF_SHARD_WORKER=1", "GOMAXPROCS=1")
-			stdin, _ := cmd.StdinPipe()
-			stdout, _ := cmd.StdoutPipe()
-			cmd.Stderr = os.Stderr
-			if err := cmd.Start(); err != nil {
-				mu.Lock()
-				herr = "cannot start worker: " + err.Error()
-				mu.Unlock()
-				return
-			}
-			rd := bufio.NewReaderSize(stdout, 1<<20)
-			for {
-				mu.Lock()
-				if next >= len(items) || herr != "" {
-					mu.Unlock()
-					break
-				}
-				it := items[next]
-				next++
-				mu.Unlock()
-				data, _ := json.Marshal(it)
-				if _, err := stdin.Write(append(data, '\n')); err != nil {
-					mu.Lock()
-					herr = "worker died: " + err.Error()
-					mu.Unlock()
-					break
-				}
-				var res result
-				got := false
-				for {
-					line, err := rd.ReadString('\n')
-					if strings.HasPrefix(line, "RESULT ") {
-						if e := json.Unmarshal([]byte(line[7:]), &res); e == nil {
-							got = true
-						}
-						break
-					}
-					if err != nil {
-						break
-					}
-				}
-				if !got {
-					mu.Lock()
-					herr = fmt.Sprintf("worker gave no result for scenario %s prefix %v (crashed?)", scs[it.Scenario].Name, it.Prefix)
-					mu.Unlock()
-					break
-				}
-				mu.Lock()
-				a := aggs[res.Scenario]
-				a.execs += res.Executions
-				a.steps += res.Steps
-				for k, n := range res.Classes {
-					a.classes[k] += n
-				}
-				if res.MaxPts > a.maxPts {
-					a.maxPts = res.MaxPts
-				}
-				if res.MaxG > a.maxG {
-					a.maxG = res.MaxG
-				}
-				a.deadlocks += res.Deadlocks
-				a.horizons += res.Horizons
-				if res.Capped {
-					c.Capped("time budget reached in scenario " + scs[res.Scenario].Name)
-				}
-				if res.Diverged != "" || res.Nondet != "" {
-					herr = res.Diverged + res.Nondet
-				}
-				mu.Unlock()
-				reportViols(c, scs[res.Scenario], res)
-			}
-			stdin.Close()
-			cmd.Wait()
-		}()
+	type worker struct {
+		cmd   *exec.Cmd
+		stdin interface {
+			Write([]byte) (int, error)
+			Close() error
+		}
+		rd *bufio.Reader
 	}
-	wg.Wait()
+	var workers []*worker
+	for w := 0; w < cfg.Workers; w++ {
+		cmd := exec.Command(self, os.Args[1:]...)
+		cmd.Env = append(os.Environ(), "VERIF_SHARD_WORKER=1", "GOMAXPROCS=1")
+		stdin, _ := cmd.StdinPipe()
+		stdout, _ := cmd.StdoutPipe()
+		cmd.Stderr = os.Stderr
+		if err := cmd.Start(); err != nil {
+			harnessError(c, "cannot start worker: "+err.Error())
+		}
+		workers = append(workers, &worker{cmd, stdin, bufio.NewReaderSize(stdout, 1<<20)})
+	}
+	var mu sync.Mutex
+	var herr string
+	// runLevel hands the items of one bound level to the workers and merges the results.
+	runLevel := func(items []item) {
+		next := 0
+		var wg sync.WaitGroup
+		for _, w := range workers {
+			w := w
+			wg.Add(1)
+			go func() {
+				defer wg.Done()
+				for {
+					mu.Lock()
+					if next >= len(items) || herr != "" {
+						mu.Unlock()
+						return
+					}
+					it := items[next]
+					next++
+					mu.Unlock()
+					data, _ := json.Marshal(it)
+					if _, err := w.stdin.Write(append(data, '\n')); err != nil {
+						mu.Lock()
+						herr = "worker died: " + err.Error()
+						mu.Unlock()
+						return
+					}
+					var res result
+					got := false
+					for {
+						line, err := w.rd.ReadString('\n')
+						if strings.HasPrefix(line, "RESULT ") {
+							if e := json.Unmarshal([]byte(line[7:]), &res); e == nil {
+								got = true
+							}
+							break
+						}
+						if err != nil {
+							break
+						}
+					}
+					if !got {
+						mu.Lock()
+						herr = fmt.Sprintf("worker gave no result for scenario %s prefix %v (crashed?)", scs[it.Scenario].Name, it.Prefix)
+						mu.Unlock()
+						return
+					}
+					mu.Lock()
+					a := aggs[res.Scenario]
+					a.execs += res.Executions
+					a.steps += res.Steps
+					for k, n := range res.Classes {
+						a.classes[k] += n
+					}
+					if res.MaxPts > a.maxPts {
+						a.maxPts = res.MaxPts
+					}
+					if res.MaxG > a.maxG {
+						a.maxG = res.MaxG
+					}
+					a.deadlocks += res.Deadlocks
+					a.horizons += res.Horizons
+					if res.Capped {
+						c.Capped(fmt.Sprintf("time budget reached at bound level %d in scenario %s", it.Level, scs[res.Scenario].Name))
+					}
+					if res.Diverged != "" || res.Nondet != "" {
+						herr = res.Diverged + res.Nondet
+					}
+					mu.Unlock()
+					reportViols(c, scs[res.Scenario], res)
+				}
+			}()
+		}
+		wg.Wait()
+	}
+	// Iterative bounding: level b (the executions with exactly b deviations) is completed for
+	// every scenario before level b+1 starts, so a run that hits its time budget has still
+	// covered every lower level completely.
+	maxLevel := 0
+	for _, sc := range scs {
+		if b := boundOf(sc, cfg); b > maxLevel {
+			maxLevel = b
+		}
+	}
+	completed := 0
+	for lvl := 1; lvl <= maxLevel && herr == "" && !c.IsCapped(); lvl++ {
+		var items []item
+		for si, sc := range scs {
+			if lvl > boundOf(sc, cfg) {
+				continue
+			}
+			for _, p := range roots[si].children {
+				items = append(items, item{Scenario: si, Prefix: p, Deadline: deadline.Unix(), Level: lvl})
+			}
+		}
+		runLevel(items)
+		if !c.IsCapped() && herr == "" {
+			completed = lvl
+		}
+	}
+	for _, w := range workers {
+		w.stdin.Close()
+		w.cmd.Wait()
+	}
 	if herr != "" {
 		harnessError(c, herr)
 	}
+	c.Set("bound_levels_completed", completed)
 	var total, steps, nclasses int64
 	maxPts, maxG := 0, 0
 	per := map[string]any{}
@@ -409,7 +448,7 @@ func Run(c *vk.Ctx, scs []Scenario, cfg Config) {
 		mode = "delay"
 	}
 	c.Set("bounding", mode)
-	c.Set("bound_completed", cfg.Bound)
+	c.Set("bound_requested", cfg.Bound)
 	c.Set("schedules", total)
 	// model-checking style counts: every explored schedule is a trace of the real
 	// implementation; transitions = scheduling decisions executed, states = distinct
